@@ -12,15 +12,18 @@ def f64 (s : L25 UInt64) : L25 UInt64 :=
     let rc := fun k => keccakRC.getD (4 * b + k) 0
     f64Round3 (rc 3) (f64Round2 (rc 2) (f64Round1 (rc 1) (f64Round0 (rc 0) s)))) s
 
+/-- the body of the 32-bit loop for `i = 8*b`: four rounds, eight words of `RoundConstants32` -/
+def f32Body (b : Nat) (w : L25 UInt32 × L25 UInt32) : L25 UInt32 × L25 UInt32 :=
+  let rc := fun k => keccakRC32.getD (8 * b + k) 0
+  let w := f32Round0 (rc 0) (rc 1) w.1 w.2
+  let w := f32Round1 (rc 2) (rc 3) w.1 w.2
+  let w := f32Round2 (rc 4) (rc 5) w.1 w.2
+  f32Round3 (rc 6) (rc 7) w.1 w.2
+
 /-- KECCAK_32BIT build: `for (i = 0; i < KECCAK_ROUNDS*2; i += 8) { …four rounds… }` on
     `state32[2k]` (first component) and `state32[2k+1]` (second component) -/
 def f32 (w : L25 UInt32 × L25 UInt32) : L25 UInt32 × L25 UInt32 :=
-  (List.range (keccakRounds * 2 / 8)).foldl (fun w b =>
-    let rc := fun k => keccakRC32.getD (8 * b + k) 0
-    let w := f32Round0 (rc 0) (rc 1) w.1 w.2
-    let w := f32Round1 (rc 2) (rc 3) w.1 w.2
-    let w := f32Round2 (rc 4) (rc 5) w.1 w.2
-    f32Round3 (rc 6) (rc 7) w.1 w.2) w
+  (List.range (keccakRounds * 2 / 8)).foldl (fun w b => f32Body b w) w
 
 /-- the 32-bit build's representation of a state: every lane through the network of `xor_lane` -/
 def interleaveAll (s : L25 UInt64) : L25 UInt32 × L25 UInt32 :=
